@@ -156,3 +156,36 @@ proof! {
         assert!(false, "check_op returned normally for an instance-level operation from a non-system rule");
     }
 }
+
+//@ tier=quick timeout=1500 mem=12 bits=270 unwind=7 unwindset="memcmp=34" expect_panic="panic_any::<warp_core::FootprintViolation>" fns=warp_core::footprint_guard::FootprintGuard::check_op,warp_core::footprint_guard::op_write_targets
+//@ bounds="the two instance-level operation kinds without an attachment target (UpsertWarpInstance, DeleteWarpInstance) aimed at an instance different from the guard's (one symbolic byte), from a SYSTEM rule"
+//@ desc="writing into another instance is always flagged, also for instance-level operations emitted by a system rule"
+proof! {
+    fn c14_instance_op_into_other_instance_panics() {
+        let fp = declared();
+        let mut wb = W0.0;
+        wb[31] ^= kani::any::<u8>() | 1;
+        let op = if kani::any() {
+            WarpOp::UpsertWarpInstance { instance: WarpInstance { warp_id: WarpId(wb), parent: None, root_node: NodeId(id32()) } }
+        } else {
+            WarpOp::DeleteWarpInstance { warp_id: WarpId(wb) }
+        };
+        guard_check_op(&fp, W0, true, &op);
+        assert!(false, "check_op returned normally for an instance-level operation aimed at another instance");
+    }
+}
+
+//@ tier=quick timeout=1500 mem=12 bits=260 unwind=7 unwindset="memcmp=34" fns=warp_core::footprint_guard::FootprintGuard::check_op,warp_core::footprint_guard::op_write_targets
+//@ bounds="the three instance-level operation kinds in the guard's own instance from a SYSTEM rule (OpenPortal on a declared slot)"
+//@ desc="a system rule's instance-level operation inside its own instance and declaration is never flagged"
+proof! {
+    fn c14_instance_op_from_system_rule_passes() {
+        let fp = declared();
+        let nk = NodeKey { warp_id: W0, local_id: NodeId(N) };
+        guard_check_op(&fp, W0, true, &WarpOp::OpenPortal { key: AttachmentKey::node_alpha(nk), child_warp: WarpId(id32()), child_root: NodeId(id32()), init: PortalInit::RequireExisting });
+        guard_check_op(&fp, W0, true, &WarpOp::UpsertWarpInstance { instance: WarpInstance { warp_id: W0, parent: None, root_node: NodeId(id32()) } });
+        guard_check_op(&fp, W0, true, &WarpOp::DeleteWarpInstance { warp_id: W0 });
+        core::mem::forget(fp);
+        reach!();
+    }
+}
